@@ -16,6 +16,8 @@ import vcheck, conc_check
 
 H = os.path.join(vcheck.VERIF, "harness", "C16")
 NKEYS = 6
+LOOP_FUEL = 40000      # fuel of the spin / retry loops of the models: larger than the step limit of a run
+STEP_LIMIT = 30000     # harness/C16/c16.h run_case max_steps
 
 # ------------------------------------------------------------------------------------------------------
 # executables: name -> (source, group define, kind, list of variant numbers)
@@ -107,6 +109,45 @@ def build_lincheck(ctx):
     return exe
 
 
+# step-correspondence: extracted model -> executables whose event logs it must reproduce
+MODELS = {
+    "striped": ("Extract_StripedConc.v", ["striped_i0", "striped_i1", "striped_c0", "striped_c1", "striped_c2"],
+                "LV.Model.StripedConc (+ StripingPolicy) vs cds::intrusive::StripedSet / container::StripedSet, striping and refinable policies"),
+    "cuckoo": ("Extract_CuckooConc.v", ["cuckoo_i", "cuckoo_c0"],
+               "LV.Model.CuckooConc vs cds::intrusive::CuckooSet / container::CuckooSet, striping and refinable policies"),
+}
+
+
+def model_of(name):
+    for m, (_, names, _) in MODELS.items():
+        if name in names:
+            return m
+    return None
+
+
+def run_model(ctx, model_exe, cases, tag, timeout=900):
+    cf = os.path.join(ctx.work, tag + ".txt")
+    conc_check.write_cases(cf, cases)
+    rc, out = vcheck.sh("%s %d < %s" % (model_exe, STEP_LIMIT, cf), timeout=timeout)
+    return rc, conc_check.parse_logs(out)
+
+
+def correspond(cases, mlogs, ilogs):
+    """-> (number compared, number agreeing, impl steps compared, first divergence (case, d) or None)"""
+    n = ok = steps = 0; first = None
+    for c in cases:
+        m = mlogs.get(c["id"]); i = ilogs.get(c["id"])
+        if m is None or i is None or i["end"] is None:
+            continue
+        n += 1
+        d = conc_check.compare(m, i)
+        if d is None:
+            ok += 1; steps += len(i["lines"])
+        elif first is None:
+            first = (c, d)
+    return n, ok, steps, first
+
+
 # ------------------------------------------------------------------------------------------------------
 # generators
 def ops_for(kind, v):
@@ -173,11 +214,11 @@ def gen_cfg(rng, kind, v):
         # drop of CuckooSet::resize() (property C17) cannot happen: table 0 always has room for a re-inserted element
         h1 = rng.choice([0, 1, 2])
         h2 = rng.choice([0, 1, 2, 3, 4, 6])
-        return [v, cap, ps, th, h1, h2, NKEYS]
+        return [v, cap, ps, th, h1, h2, NKEYS, LOOP_FUEL]
     rp = v & 1
     th = rng.choice([1, 1, 2])
     hm = rng.choice([5, 5, 6, 0, 7]) if rp == 0 else rng.choice([0, 5, 6, 1])
-    return [v, 16, 0, th, hm, 0, NKEYS]
+    return [v, 16, 0, th, hm, 0, NKEYS, LOOP_FUEL]
 
 
 def gen_cases(rng, name, n, tag):
@@ -359,8 +400,11 @@ def judge(ctx, kind, name, cases, logs, lin, stats, tag):
 def run(ctx):
     res = vcheck.coq_build(["Properties/Properties_C16.v"])
     ctx.coq_evidence(res)
+    ctx.log("coq obligations: ok=%s (%.1fs)" % (res.ok, res.wall_s))
     exes = build_all(ctx)
     lin = build_lincheck(ctx)
+    models = {m: conc_check.build_model(ctx, MODELS[m][0], tag="model_" + m) for m in MODELS}
+    ctx.log("harnesses, models and lincheck built")
     stats = {}
     total = 0; nviol = 0
 
@@ -386,12 +430,18 @@ def run(ctx):
         allcases[name] = cs
     results = {}
 
+    mresults = {}
+
     def runner(name):
         results[name] = run_impl(ctx, exes[name], allcases[name], "cases_" + name)
+        m = model_of(name)
+        if m:
+            mresults[name] = run_model(ctx, models[m], allcases[name], "mcases_" + name)
 
     ths = [threading.Thread(target=runner, args=(n,)) for n in sorted(EXES)]
     for t in ths: t.start()
     for t in ths: t.join()
+    ctx.log("implementation runs done")
     shapes = set(); nontrivial = set()
     for name in sorted(EXES):
         kind = EXES[name][2]
@@ -407,6 +457,25 @@ def run(ctx):
                 if any((" cas " in x or " xchg " in x) and x.split(" ")[3] == "0" for x in lg["lines"]) or any(" xchg " in x and x.split(" ")[4:5] == ["i1"] for x in lg["lines"]):
                     nontrivial.add(hsh)
 
+    # step correspondence
+    corr = {}
+    for name in sorted(mresults):
+        m = model_of(name)
+        n, ok, steps, first = correspond(allcases[name], mresults[name][1], results[name][1])
+        cs = corr.setdefault(m, {"compared": 0, "agree": 0, "impl_steps_compared": 0})
+        cs["compared"] += n; cs["agree"] += ok; cs["impl_steps_compared"] += steps
+        if first is not None and nviol == 0:
+            c, d = first
+            # the correspondence broke: search for a concrete failure of the property on the real code, more seeds
+            more = gen_cases(ctx.rng.fork(), name, 6 * per_exe, "s")
+            rc, lg2 = run_impl(ctx, exes[name], more, "search_" + name)
+            found = judge(ctx, EXES[name][2], name, more, lg2, lin, {}, "search_" + name)
+            if not found:
+                ctx.violation("step correspondence between %s no longer holds" % MODELS[m][2],
+                              {"correspondence": MODELS[m][2], "case": c, "variant": variant_name(EXES[name][2], c["cfg"][0]), "first_divergence": d},
+                              no_input=True)
+            nviol += 1
+
     if not res.ok:
         ctx.violation("Coq obligations of C16 do not check: %s" % (res.failed[:2],), {"theorem": [f[2] for f in res.failed], "errors": res.failed[:3]}, no_input=True)
 
@@ -417,6 +486,8 @@ def run(ctx):
         "variants": len(stats), "per_variant": stats,
         "histories_decided_by_verified_lincheck": sum(s["lin_ok"] for s in stats.values()),
         "samples": [allcases["cuckoo_i"][0], allcases["striped_i0"][0]],
+        "step_correspondence": corr,
+        "traces_validated_against_impl": sum(v["agree"] for v in corr.values()),
     })
     return ctx.finish(vcheck.STD_TRUSTED + ["hook layer: khizmax_libcds_verif::atomic<T>, baton scheduler, event log (hooks/include)",
                                             "ocaml/lincheck_main.ml and ocaml/conc_main.ml (parsing / printing)"],
